@@ -572,15 +572,20 @@ class FGen(gen.Gen):
         if a in self.consts:
             t = self.consts[a]
             r = rng.random()
-            if r < 0.5:
+            if r < 0.55:
+                # literals already used elsewhere are avoided: two different literals
+                # in one program exercise the compiler's constant table
+                used = [v[1] for m in self.makes for x, v in m[2] if v[0] == 'const']
                 pool = [c for c in (CONST_N if t == 'N' else CONST_S)]
-                return ('const', rng.choice(pool))
+                fresh_ = [c for c in pool if c not in used]
+                return ('const', rng.choice(fresh_ if fresh_ and rng.random() < 0.8
+                                            else pool))
             others = [k for k in self.consts if k != a and self.consts[k] == t
                       and k not in avoid]
-            if others and r < 0.7:
+            if others and r < 0.72:
                 return ('pred', rng.choice(others))
             k = self.fresh('K')
-            if r < 0.85:
+            if r < 0.87:
                 self.add_const(k, t)
             else:
                 # a constant whose value is computed from the argument itself
@@ -785,8 +790,20 @@ class FGen(gen.Gen):
 
     def result(self):
         p = gen.Gen.result(self)
-        p['preds'] = list(self.everything) + list(self.consts)
-        p['make'] = [list(m) for m in self.makes]
+        # made names are permuted: the compiler orders applications itself and walks
+        # them in lexicographic order, which must not coincide with creation order
+        made = [m[0] for m in self.makes]
+        perm = list(made)
+        self.rng.shuffle(perm)
+        m = dict(zip(made, perm))
+        ren = lambda n: m.get(n, n)
+        p['rules'] = [dict(_map_rule_preds(r, ren), pred=ren(r['pred']))
+                      for r in self.rules]
+        p['sig'] = {ren(k): v for k, v in p['sig'].items()}
+        p['preds'] = [ren(x) for x in list(self.everything) + list(self.consts)]
+        p['make'] = [[ren(n), ren(f), [[ren(a), [v[0], ren(v[1]) if v[0] == 'pred'
+                                                 else v[1]]] for a, v in args]]
+                     for n, f, args in self.makes]
         p['make_at'] = [self.rng.randint(0, len(self.rules)) for _ in self.makes]
         return p
 
